@@ -2,6 +2,7 @@ import numpy as np
 from dataclasses import dataclass, field, fields
 from typing import Union
 from math import isclose
+import math
 import fractions
 import numbers
 
@@ -109,12 +110,12 @@ class Fraction:
             self.num = -self.num
             self.den = -self.den
         # remove common divisors
-        def reduce(num: int, den:int):
-            gcd=np.gcd(num, den)
-            if gcd>1:
-                return reduce(int(num/gcd), int(den/gcd))
-            return int(num), int(den)
-        self.num, self.den = reduce(self.num, self.den)
+        # (whole-number arithmetic: a product of many fractional powers has a denominator beyond 2**53)
+        gcd = math.gcd(int(self.num), int(self.den))
+        if gcd>1:
+            self.num, self.den = int(self.num)//gcd, int(self.den)//gcd
+        else:
+            self.num, self.den = int(self.num), int(self.den)
     
     def value(self, dtype=tuple):
         self.rebase()   # 2:2 is the whole number 1, not the pair (1,1)
